@@ -33,7 +33,23 @@ from ..mailbox import MailboxDataInterface, MailboxSetInterface
 __all__ = ['Maildir', 'Message', 'MailboxData', 'MailboxSet']
 
 
+class _RawMessage(MaildirMessage):
+    # Carries the exact message bytes, they must not be re-serialized by the
+    # email package (which normalizes line endings and may fail to encode).
+
+    def __init__(self, raw: bytes) -> None:
+        super().__init__()
+        self.raw = raw
+
+
 class Maildir(_Maildir):
+
+    def _dump_message(self, message: Any, target: Any,
+                      mangle_from_: bool = False) -> None:
+        if isinstance(message, _RawMessage):
+            target.write(message.raw)
+        else:
+            super()._dump_message(message, target, mangle_from_)
 
     @property
     def _path_new(self) -> str:
@@ -147,11 +163,11 @@ class Message(BaseMessage):
                 or requirement.has_none(FetchRequirement.CONTENT):
             return LoadedMessage(self, requirement, None)
         try:
-            maildir_msg = self._maildir.get_message(self._key)
+            raw = self._maildir.get_bytes(self._key)
         except (KeyError, FileNotFoundError):
             return LoadedMessage(self, requirement, None)
         else:
-            content = MessageContent.parse(bytes(maildir_msg))
+            content = MessageContent.parse(raw)
             return LoadedMessage(self, requirement, content)
 
     @classmethod
@@ -166,7 +182,7 @@ class Message(BaseMessage):
                    maildir_flags: MaildirFlags) -> MaildirMessage:
         flag_str = maildir_flags.to_maildir(append_msg.flag_set)
         when = append_msg.when or datetime.now()
-        maildir_msg = MaildirMessage(append_msg.literal)
+        maildir_msg = _RawMessage(bytes(append_msg.literal))
         maildir_msg.set_flags(flag_str)
         maildir_msg.set_subdir('new' if recent else 'cur')
         maildir_msg.set_date(when.timestamp())
@@ -288,9 +304,12 @@ class MailboxData(MailboxDataInterface[Message]):
         dest_maildir = destination._maildir
         try:
             record, maildir_msg = await self._get_maildir_msg(uid)
-        except KeyError:
+            raw = self._maildir.get_bytes(record.key)
+        except (KeyError, FileNotFoundError):
             return None
-        copy_msg = MaildirMessage(maildir_msg)
+        copy_msg = _RawMessage(raw)
+        copy_msg.set_info(maildir_msg.get_info())
+        copy_msg.set_date(maildir_msg.get_date())
         copy_msg.set_subdir('new' if recent else 'cur')
         async with destination.messages_lock.write_lock():
             dest_key = dest_maildir.add(copy_msg)
